@@ -281,11 +281,29 @@ func (p *Prog) loadShape(vals []Val, sh []int) []int {
 			res[i] = v
 			continue
 		}
-		v := p.Load(vals[root])
+		v := p.loadMaybeInexact(vals[root], i == 0)
 		loaded[root] = v
 		res[i] = v
 	}
 	return res
+}
+
+// staleRand drives loadMaybeInexact; set by the generator.
+var staleRand func(n int) int
+
+// loadMaybeInexact loads v; for a finite receiver it sometimes first loads a value with extra
+// digits at a larger precision and then SetPrec's it down, so that the variable enters the
+// operation with accuracy Below/Above (stale state that the operation must overwrite).
+func (p *Prog) loadMaybeInexact(v Val, isRecv bool) int {
+	if isRecv && staleRand != nil && v.Form == 1 && v.Prec >= 1 && staleRand(3) == 0 {
+		w := v
+		w.Digits = v.Digits + strings.Repeat("0", int(v.Prec)-len(v.Digits)) + []string{"3", "5", "51", "7", "49"}[staleRand(5)]
+		w.Prec = uint(len(w.Digits))
+		i := p.Load(w)
+		p.Exec(fmt.Sprintf("setprec %d %d", i, v.Prec))
+		return i
+	}
+	return p.Load(v)
 }
 
 // genFMA emits FMA cases (C03).
